@@ -185,6 +185,98 @@ fn parse_msg(m: &str, d: &Dialect) -> Option<Parsed> {
     None
 }
 
+/// Unrestricted Damerau-Levenshtein distance over characters (Lowrance-Wagner), written here so
+/// that the "suggestion only when one is close" clause is judged independently of deserr.
+pub fn damerau_levenshtein(a: &str, b: &str) -> usize {
+    let a: Vec<char> = a.chars().collect();
+    let b: Vec<char> = b.chars().collect();
+    let (n, m) = (a.len(), b.len());
+    if n == 0 {
+        return m;
+    }
+    if m == 0 {
+        return n;
+    }
+    let maxd = n + m;
+    let mut d = vec![vec![0usize; m + 2]; n + 2];
+    d[0][0] = maxd;
+    for i in 0..=n {
+        d[i + 1][0] = maxd;
+        d[i + 1][1] = i;
+    }
+    for j in 0..=m {
+        d[0][j + 1] = maxd;
+        d[1][j + 1] = j;
+    }
+    let mut last_row: std::collections::HashMap<char, usize> = std::collections::HashMap::new();
+    for i in 1..=n {
+        let mut last_match_col = 0;
+        for j in 1..=m {
+            let i1 = *last_row.get(&b[j - 1]).unwrap_or(&0);
+            let j1 = last_match_col;
+            let cost = if a[i - 1] == b[j - 1] {
+                last_match_col = j;
+                0
+            } else {
+                1
+            };
+            let subst = d[i][j] + cost;
+            let ins = d[i + 1][j] + 1;
+            let del = d[i][j + 1] + 1;
+            let transp = d[i1][j1] + (i - i1 - 1) + 1 + (j - j1 - 1);
+            d[i + 1][j + 1] = subst.min(ins).min(del).min(transp);
+        }
+        last_row.insert(a[i - 1], i);
+    }
+    d[n + 1][m + 1]
+}
+
+/// typo budget by the byte length of what was received (property C18's table)
+fn budget(received: &str) -> Option<usize> {
+    match received.len() {
+        0..=3 => None,
+        4..=7 => Some(1),
+        8..=12 => Some(2),
+        13..=17 => Some(3),
+        18..=24 => Some(4),
+        _ => Some(5),
+    }
+}
+
+/// the suggestion the documented rule calls for: an accepted name at minimal distance within
+/// the budget, the earliest such; none when nothing is that close
+fn expected_suggestion(received: &str, accepted: &[String]) -> Option<String> {
+    let b = budget(received)?;
+    let mut best: Option<(usize, &String)> = None;
+    for a in accepted {
+        let dist = damerau_levenshtein(received, a);
+        if dist <= b && best.map(|(bd, _)| dist < bd).unwrap_or(true) {
+            best = Some((dist, a));
+        }
+    }
+    best.map(|(_, a)| a.clone())
+}
+
+/// my distance function against the strsim crate on seeded random pairs: a disagreement is a
+/// harness error, never a violation
+pub fn selftest_distance() -> Result<(), String> {
+    let mut rng = simcore::rng::Rng::new(0xD157);
+    let alphabet: Vec<char> = "abcé_X".chars().collect();
+    for _ in 0..20_000 {
+        let mk = |rng: &mut simcore::rng::Rng| -> String {
+            let n = rng.below(9);
+            (0..n).map(|_| *rng.pick(&alphabet)).collect()
+        };
+        let (x, y) = (mk(&mut rng), mk(&mut rng));
+        let mine = damerau_levenshtein(&x, &y);
+        let theirs = strsim::damerau_levenshtein(&x, &y);
+        if mine != theirs {
+            return Err(format!("distance({x:?},{y:?}): harness {mine}, strsim {theirs}"));
+        }
+    }
+    Ok(())
+}
+
 fn json_text_is(text: &str, want: &Doc) -> bool {
     match serde_json::from_str::<serde_json::Value>(text) {
         Ok(j) => {
@@ -221,7 +313,7 @@ fn compare(
     let here = doc
         .resolve(path)
         .ok_or_else(|| format!("the path in the message ({}) does not resolve in the payload", path_str(path)))?;
-    let alts = |sug: &Option<String>, acc: &Vec<String>, want: &Vec<String>| -> Result<(), String> {
+    let alts = |received: &str, sug: &Option<String>, acc: &Vec<String>, want: &Vec<String>| -> Result<(), String> {
         if acc != want {
             return Err(format!("the message lists the alternatives {acc:?} but the report carries {want:?}"));
         }
@@ -229,6 +321,13 @@ fn compare(
             if !want.contains(s) {
                 return Err(format!("the message suggests `{s}` which is not one of the accepted names {want:?}"));
             }
+        }
+        // "a suggestion only when one is close"
+        let expect = expected_suggestion(received, want);
+        if *sug != expect {
+            return Err(format!(
+                "for `{received}` among {want:?} the message suggests {sug:?}; the closest accepted name within the typo budget is {expect:?}"
+            ));
         }
         Ok(())
     };
@@ -283,13 +382,13 @@ fn compare(
             if key != k {
                 return Err(format!("the message names the unknown key `{key}` but the report says `{k}`"));
             }
-            alts(suggestion, accepted, a)
+            alts(key, suggestion, accepted, a)
         }
         (Parsed::UnknownValue { value, suggestion, accepted, .. }, First::Kind(KindSnap::UnknownValue { value: v, accepted: a })) => {
             if value != v {
                 return Err(format!("the message names the unknown value `{value}` but the report says `{v}`"));
             }
-            alts(suggestion, accepted, a)
+            alts(value, suggestion, accepted, a)
         }
         (Parsed::ArrayLen { received, expected, json, .. }, First::Kind(KindSnap::BadSequenceLen { actual, expected: e })) => {
             if *received != actual.len() || expected != e {
